@@ -11,7 +11,8 @@ trap 'rm -rf "$scratch"' EXIT
 cp -r /repo/txdbus /repo/tests /repo/setup.py /repo/setup.cfg "$scratch"/ 2>/dev/null
 ( cd "$scratch" && git apply --whitespace=nowarn "$patch" ) || { echo "PATCH-FAILED $patch"; exit 3; }
 if [ "$notests" != "--no-tests" ]; then
-  res=$(cd "$scratch" && PYTHONPATH="$scratch" PYTHONDONTWRITEBYTECODE=1 /venv/bin/python -m pytest -q -p no:cacheprovider -x \
+  iso=""; if unshare -n true 2>/dev/null; then iso="unshare -n"; fi    # fixed abstract socket name in upstream tests
+  res=$(cd "$scratch" && PYTHONPATH="$scratch" PYTHONDONTWRITEBYTECODE=1 $iso /venv/bin/python -m pytest -q -p no:cacheprovider -x \
         --deselect tests/test_authentication.py::DBusCookieCookieHandlingTester 2>&1 | tail -1)
   case "$res" in
     *failed*|*error*) echo "UNREALISTIC (repo tests fail: $res) $patch"; exit 4;;
